@@ -75,6 +75,7 @@ class FakeDevice:
         self.nreads = 0
         self.closed = 0
         self.opened = 0
+        self.frames_before = 0
 
 
 def full_ir_set(remote_id, on_off_type, main, swing):
@@ -132,13 +133,24 @@ def run_api_op(spec):
         if spec.get("remote") is not None:
             args = [build_remote(spec["remote"])] + args
 
+        before = spec.get("before_ops") or []
+
         async def go():
             await api.connect()
             try:
+                for b in before:
+                    try:
+                        await getattr(api, b["op"])(*_op_args(b))
+                    except Exception:  # noqa: BLE001
+                        pass
+                    dev.frames_before = len(dev.frames)
                 return await getattr(api, spec["op"])(*args, **kwargs)
             finally:
                 await api.disconnect()
 
+        if before:
+            dev.replies = [bytes.fromhex(x) for b in before for x in b["replies"]] + dev.replies
+            spec = dict(spec, clock=[c for b in before for c in (b.get("clock") or [])] + list(spec.get("clock") or []))
         with Env(spec) as env:
             try:
                 res = asyncio.run(go())
@@ -153,7 +165,7 @@ def run_api_op(spec):
                 out = exc_name(e)
     finally:
         api_mod.open_connection = real_open
-    out["frames"] = [f.hex() for f in dev.frames]
+    out["frames"] = [f.hex() for f in dev.frames[getattr(dev, "frames_before", 0):]]
     return out
 
 
@@ -234,7 +246,9 @@ def o_c02(spec, obs):
 
         z = zoneinfo.ZoneInfo(spec["zone"])
         args = [denorm(x) for x in spec["args"]]
-        dates = {dt.datetime.fromtimestamp(c, z).strftime("%Y-%m-%d") for c in (spec.get("clock") or [])}
+        nb = sum(len(b.get("clock") or []) for b in (spec.get("before_ops") or []))
+        own = (spec.get("clock") or [])
+        dates = {dt.datetime.fromtimestamp(c, z).strftime("%Y-%m-%d") for c in own}
         for text, v in ((args[0], a["start_t"]), (args[1], a["end_t"])):
             hh, mm = [int(x) for x in text.strip().split(":")]
             loc = dt.datetime.fromtimestamp(v, z)
@@ -937,6 +951,7 @@ def k_bridge_seq(spec):
     async def go():
         log = []
         br = SwitcherBridge(lambda dev: log.append(dev), list(real_ports))
+        other = SwitcherBridge(lambda dev: None, list(real_ports))
         outsiders = {}
         mapping = {}
 
@@ -974,6 +989,8 @@ def k_bridge_seq(spec):
                     outsiders.pop(port).close()
                 elif kindn == "cycle":
                     await asyncio.sleep(0.01)
+                elif kindn == "stop_other":
+                    await other.stop()
             except Exception as e:  # noqa: BLE001
                 o["raised"] = type(e).__name__
             await asyncio.sleep(0)
@@ -1013,7 +1030,9 @@ def o_c17(spec, obs):
                 return True, "stop: raised=%r, still listening on %d ports, is_running=%r" % (o["raised"], len(now), o["is_running"])
         if k == "send":
             pass
-        if o["raised"] is None and k in ("start", "stop", "enter", "exit") and bool(o["is_running"]) != (len(now) == n):
+        if k == "stop_other" and (o["raised"] or now != listening):
+            return True, "stopping another bridge object changed this bridge's listening ports: %s -> %s" % (sorted(listening), sorted(now))
+        if o["raised"] is None and k in ("start", "stop", "enter", "exit", "stop_other") and bool(o["is_running"]) != (len(now) == n):
             return True, "is_running=%r while listening on %d of %d ports" % (o["is_running"], len(now), n)
         listening = now
     return False, "ok"
@@ -1280,6 +1299,14 @@ def k_c15(spec):
     case = spec["case"]
     out = {}
     try:
+        if spec.get("other") and case.get("kind") == "build":
+            try:
+                SwitcherBreezeRemote(spec["other"]["ir_set"]).build_command(
+                    getattr(dev.DeviceState, case["state"]), getattr(dev.ThermostatMode, case["mode"]), spec["other"]["target"],
+                    getattr(dev.ThermostatFanLevel, case["fan"]), getattr(dev.ThermostatSwing, case["swing"]),
+                    None if case["prev"] is None else getattr(dev.DeviceState, case["prev"]))
+            except Exception:  # noqa: BLE001
+                pass
         R = SwitcherBreezeRemote(spec["ir_set"])
         out["caps"] = {"modes": sorted(m.name for m in R.supported_modes), "min": R.min_temperature, "max": R.max_temperature,
                        "toggle": R.on_off_type, "separated": R.separated_swing_command, "id": R.remote_id}
@@ -1368,3 +1395,13 @@ def o_c15cap(spec, obs):
 @oracle("C15mgr")
 def o_c15mgr(spec, obs):
     return True, "get_remote cache/load (reported by the in-process check)"
+
+
+@oracle("C09seq")
+def o_c09seq(spec, obs):
+    """last operation of the sequence had an empty login reply: RuntimeError and only the login frame"""
+    res, frames = obs["results"][-1], obs["frames"][-1]
+    exc = res.get("exception") if isinstance(res, dict) else None
+    if exc != "RuntimeError" or len(frames) != 1:
+        return True, "after a good exchange, an empty login reply gave %r and %d frames" % (exc or "a result", len(frames))
+    return False, "ok"
